@@ -52,7 +52,7 @@ TGlobal == /\ IsEvent("global") /\ Global(Ev.cell) /\ UNCHANGED snap0
            /\ Note(<< <<"global.parent", <<NewStage[1].par[1], NewStage[1].par[2]>> = Ev.obs.par>>,
                       <<"global.onenode", Ev.obs.n = 1>>,
                       <<"global.text", Ev.obs.text = Ev.cell.t>> >>)
-THeader == /\ IsEvent("header") /\ Header(Ev.cells) /\ UNCHANGED snap0
+THeader == /\ IsEvent("header") /\ (Header(Ev.cells) \/ Reopen(Ev.cells)) /\ UNCHANGED snap0
            /\ Note(<< <<"header.tree", ObsStage = Ev.obs.stage>> >> \o TokChecks("header", Ev.obs.toks))
 TRow == /\ IsEvent("row") /\ Row(Ev.cells) /\ UNCHANGED snap0
         /\ Note(<< <<"row.generator_text", CellsTextOK(Ev.cells)>>,
@@ -65,6 +65,9 @@ TRow == /\ IsEvent("row") /\ Row(Ev.cells) /\ UNCHANGED snap0
                            => (Ev.obs.toks[i][1] = "ERROR" /\ Ev.obs.toks[i][2] = Ev.cells[i].t)>> >> \o TokChecks("row", Ev.obs.toks))
 TSurplus == /\ IsEvent("surplus") /\ Surplus(Ev.cells) /\ UNCHANGED snap0
             /\ Note(<< <<"surplus.rejected", Ev.obs.raised>> >>)
+\* a line with the exchange operator: the implementation must refuse it (it does not support '*x')
+TUnsupported == /\ IsEvent("unsupported") /\ Unsupported(Ev.cells) /\ UNCHANGED snap0
+                /\ Note(<< <<"unsupported.rejected", Ev.obs.raised>> >>)
 \* end of the import: totals of the real document
 TEnd == /\ IsEvent("end") /\ UNCHANGED spVars /\ snap0' = Ev.snap
         /\ Note(<< <<"end.stage_per_line", Ev.obs.nstages = Len(stages)>>,
@@ -72,6 +75,8 @@ TEnd == /\ IsEvent("end") /\ UNCHANGED spVars /\ snap0' = Ev.snap
                    <<"end.measure_index", Ev.obs.mst = mstarts>>,
                    <<"end.shape", Ev.obs.shape = [s \in 1..Len(stages) |-> Len(stages[s])]>>,
                    <<"end.page_index", "pages" \in DOMAIN Ev.obs => Ev.obs.pages = PageIndex>>,
+                   <<"end.cancelled_at", "cancel" \in DOMAIN Ev.obs => Ev.obs.cancel = CancelList>>,
+                   <<"end.header_stage", "hstage" \in DOMAIN Ev.obs => Ev.obs.hstage = LastHeaderStage>>,
                    <<"end.two_imports_indistinguishable", "snap2" \in DOMAIN Ev => Ev.snap2 = Ev.snap>> >>)
 
 \* kernpy.loads raised on input the generator built to be well-formed
@@ -198,6 +203,15 @@ CallChecks(e) ==
                                  <<"graph.edges", e.res.ok => ({<<e.res.edges[j][1], e.res.edges[j][2]>> : j \in 1..Len(e.res.edges)} = GraphEdges
                                                                /\ Len(e.res.edges) = Cardinality(GraphEdges))>>,
                                  <<"graph.labels", e.res.ok => e.res.labels = GraphLabels>> >>
+    [] e.op = "small"      -> LET r == e.res IN            \* small queries: spine count, leaves, first measure, match, level counts
+                              << <<"small.spine_count", r.spine_count = (IF LastHeaderStage = 0 THEN -1 ELSE Len(stages[LastHeaderStage + 1]))>>,
+                                 <<"small.leaves", r.leaves = LastStageTexts>>,
+                                 <<"small.first_measure", r.first_measure = (IF M = 0 THEN -1 ELSE 1)>>,
+                                 <<"small.match_self", r.match_self /\ r.match_core_self>>,
+                                 <<"small.match_other", r.match_other = (HeaderTexts = r.other_headers)
+                                                        /\ r.match_core_other = (CoreHeaderTexts = SelectSeq(r.other_headers, LAMBDA t : t \in {HKern, HMens}))>>,
+                                 <<"small.level_counts", r.levels = LevelCounts>>,
+                                 <<"small.header_nodes", r.headers = HeaderTexts>> >>
     [] e.op = "opaque"     -> <<>>                                                        \* a call only watched for purity
     [] e.op = "flag"       -> << <<e.name, e.value>> >>                                   \* a comparison between two REAL objects made by the harness
     [] OTHER -> << <<"unknown_op", FALSE>> >>
@@ -249,7 +263,7 @@ TCall == /\ IsEvent("call") /\ UNCHANGED spVars /\ UNCHANGED snap0
          /\ Note(CallChecks(Ev) \o << <<"call.readonly", Ev.snap = snap0>> >>
                  \o (IF "fresh" \in DOMAIN Ev THEN << <<"call.same_as_on_fresh_import", Ev.fresh>> >> ELSE <<>>))
 
-TNext == TBlank \/ TGlobal \/ THeader \/ TRow \/ TSurplus \/ TEnd \/ TCall \/ TImportFailed
+TNext == TBlank \/ TGlobal \/ THeader \/ TRow \/ TSurplus \/ TUnsupported \/ TEnd \/ TCall \/ TImportFailed
          \/ TTranspose \/ TConcat \/ TXHeader \/ TXRow \/ TXEnd \/ TXBad
 TInit == SpInit /\ tid \in 1..Len(Log) /\ l = 1 /\ fails = <<>> /\ snap0 = ""
 Spec == TInit /\ [][TNext]_allVars
